@@ -28,7 +28,7 @@ EXPECT_OUTCOMES = ["data@L1", "zero@L1", "zero-below-base", "data@L1+zero@L1", "
 
 H3 = [HOLE, ZERO, DATA]
 HC = [HOLE, ZERO, DATA, B.CDATA]
-SE = [HOLE, ZERO, B.FALL, DATA]
+SE = [HOLE, ZERO, B.FALL, B.STALE, DATA]
 CW = [HOLE, DATA]
 
 
